@@ -235,6 +235,7 @@ MC_RUNS = {
     "MC_Mut":         ("MC_Mut.tla", "MC_Mut.cfg", ("quick", "thorough"), 8),
     "MC_Heap":        ("Heap.tla", "MC_Heap.cfg", ("quick", "thorough"), 8),
     "MC_HeapDeep":    ("Heap.tla", "MC_HeapDeep.cfg", ("thorough",), 12),
+    "MC_HeapStep":    ("MC_HeapStep.tla", "MC_HeapStep.cfg", ("quick", "thorough"), 10),
 }
 
 MODEL_FILES_EXCLUDED = ("Trace", "DiffRef", "Lexer", "Frontend")
